@@ -101,6 +101,12 @@ func runLife(e *Env) {
 		return frame, false
 	}
 
+	if faultsOn && tp.Chance(1, 8) {
+		// closing a connection is never clean (tls.Conn.Close towards a peer that is gone):
+		// every Close reports an error, which the driver passes to its error handler
+		cl.Net.CloseErrAll = true
+		k.Fault("conn.close-reports-error")
+	}
 	if faultsOn && tp.Chance(1, 6) {
 		// the control connection's heartbeat goroutine is slow to start: it is held at its
 		// first instruction until the scheduler resumes it (possibly after Close)
